@@ -135,3 +135,48 @@ func StopGiveUp(procs, workers, retry int, deadq bool, dqDelayMs, retentionMs in
 	plan := hx.L(hx.L(hx.I(0), hx.I(0)), hx.L(hx.I(0), hx.I(1)), hx.L(hx.I(2), hx.I(0)), hx.L(hx.I(0), hx.I(last)), hx.L(hx.I(0), hx.I(0)))
 	return hx.L(cfg, hx.L(hx.L(ops...)), plan, hx.L(hx.I(0), hx.I(retentionMs), hx.I(0), hx.I(0), hx.I(dqDelayMs)))
 }
+
+// StopWhileHeld: Pipeline.Stop while a processor waits in blockGet behind a held event (event time-out 5 s: no time-out
+// comes first).  streamer.stop() puts an unlock event into every stream; the waiting owner takes it and leaves the stream
+// at once (processor.go: processEvent / processSequence / dischargeStream return on an unlock event) with the event still
+// held.  `more` further events of a second source sit in their stream behind a slow first event (2 ms in action 0), so that
+// processors are still running when the output has stopped: Batcher.Add on a stopped batcher returns without appending.
+// Stop must return, nothing may panic, nothing may be committed that the output did not acknowledge; the held event and
+// whatever the stopped output dropped stay un-committed (no completeness claimed: option 9).
+func StopWhileHeld(procs, outKind, more, stopDelayMs int, fileCommit bool) hx.Sx {
+	ev := func(src, off int, ops string, slow int) hx.Sx {
+		js := fmt.Sprintf(`{"stream":"a","ops":"%s","m":"11"`, ops)
+		if slow > 0 {
+			js += fmt.Sprintf(`,"slow":%d`, slow)
+		}
+		return hx.L(hx.I(0), hx.I(src), hx.I(off), hx.S(js+"}"))
+	}
+	cfg := hx.L(hx.I(procs), hx.I(0), hx.I(64), hx.I(5000), hx.I(1), hx.I(outKind), hx.I(2), hx.I(2), hx.I(10), hx.I(0), hx.I(0), hx.I(0))
+	f1 := []hx.Sx{ev(1, 10, "p", 0), ev(1, 20, "h", 0), hx.L(hx.I(1), hx.I(15)), hx.L(hx.I(7))}
+	var f2 []hx.Sx
+	for i := 0; i < more; i++ {
+		f2 = append(f2, ev(2, 10*(i+1), "p", 2000))
+	}
+	feeders := []hx.Sx{hx.L(f1...)}
+	if more > 0 {
+		feeders = append(feeders, hx.L(f2...))
+	}
+	opts := []hx.Sx{hx.L(hx.I(9), hx.I(1+stopDelayMs))}
+	if fileCommit {
+		opts = append(opts, hx.L(hx.I(8), hx.I(1)))
+	}
+	return hx.L(cfg, hx.L(feeders...), hx.L(), hx.L(hx.I(0), hx.I(0), hx.I(0), hx.I(0), hx.I(0), hx.L(opts...)))
+}
+
+// DirectedStops: the StopWhileHeld schedules every pipeline-level harness runs (stream "early-stop").
+func DirectedStops(scale int) []*Job {
+	var jobs []*Job
+	for k := 0; k < scale; k++ {
+		for i, procs := range []int{1, 2, 4} {
+			for outKind := 0; outKind <= 2; outKind++ {
+				jobs = append(jobs, &Job{Stream: "early-stop", Case: StopWhileHeld(procs, outKind, 12*((i+outKind+k)%3), (i+k)%2*3, outKind != 2)})
+			}
+		}
+	}
+	return jobs
+}
